@@ -542,7 +542,10 @@ def gen_sge(rng: random.Random, focus: dict | None = None) -> dict:
             d['bg'] = gen_bg(rng, d, focus)
             if d['bg'] and rng.random() < focus.get('p_mask', 0.25):
                 v = rng.choice(d['bg'])
-                d['mask'] = [['chr1', v['pos'] - 1 + (1 if len(v['ref']) != len(v['alts'][0]) else 0) - rng.randint(0, 1), v['pos'] + 2]]
+                off = rng.randint(0, 1)
+                if v['pos'] % 3 == 0:
+                    off = -1        # the interval starts on the base after the variant (BED starts are 0-based): the variant is not masked
+                d['mask'] = [['chr1', v['pos'] - 1 + (1 if len(v['ref']) != len(v['alts'][0]) else 0) - off, v['pos'] + 2]]
         if rng.random() < focus.get('p_table', 0.15):
             d['codon_table'] = gen_codon_table(rng)
         d['opts'] = gen_opts(rng, focus)
